@@ -86,6 +86,7 @@ def run(db, chk, quad: bool = False) -> None:
                why="the two builders must produce the same tree for the same thread")
     _builders(db, chk, new, old, OPEN_N, CLOSE_N, START_O, END_O)
     _published_parent(db, chk, old)
+    _thread_identity(db, chk, new, old)
     chk.floor("C03.O4-tie-rules", 12)
     chk.floor("C03.O3-strict-weak-order", 2)
     chk.floor("C03.R3-builder", 8)
@@ -288,4 +289,24 @@ def _published_parent(db, chk, old):
     okf = len(first) == 1 and any(H.match("{$k: $n.parent for $k, $n in $$it if $k >= 0}", x) is not None for x in ast.walk(first[0]) if isinstance(x, ast.DictComp))
     chk.ob(rule, "host parents: every node id >= 0 of every stack of the rank maps to its stack parent, before the link overwrite", okf, where, found=[ast.unparse(u)[:140] for u in first],
            accepted="parents.update({node_id: node.parent for node_id, node in stack.get_nodes().items() if node_id >= 0})")
+    chk.floor(rule, 2)
+
+
+def _thread_identity(db, chk, new, old):
+    """one call stack per host THREAD: the per-rank frame is split by (pid, tid) - a tid alone does not identify a thread (forked workers,
+    pid namespaces, a host tid equal to a device stream id)"""
+    rule = "C03.R7-thread-identity"
+    cgm = db.mod("hta.common.trace_call_graph")
+    for mod, q in ((old, "CallGraph._construct_call_graph"), (cgm, "CallGraph._build_call_stacks")):
+        f = mod.func(q)
+        gbs = [c for c in ast.walk(f) if isinstance(c, ast.Call) and isinstance(c.func, ast.Attribute) and c.func.attr == "groupby"]
+        loops = [n for n in ast.walk(f) if isinstance(n, ast.For) and any(g is n.iter or any(g is x for x in ast.walk(n.iter)) for g in gbs)]
+        keys = None
+        if len(loops) == 1:
+            g = next(g for g in gbs if g is loops[0].iter or any(g is x for x in ast.walk(loops[0].iter)))
+            by = g.args[0] if g.args else H.kwarg(g, "by")
+            keys = lit(by)
+        ok = isinstance(keys, list) and sorted(keys) == ["pid", "tid"]
+        chk.ob(rule, f"{mod.name}:{q}: the events are split into threads by (pid, tid)", ok if keys is not None else None, mod.loc(f), found=keys, accepted=["pid", "tid"],
+               why="two processes of one rank may reuse a tid: their events, each properly nested, would be interleaved in ONE stack and get parents from the other thread")
     chk.floor(rule, 2)
